@@ -232,11 +232,11 @@ func report(w *vc.World, out *checkOutcome, seed int, writeEvidence, writeExpect
 	for _, r := range out.results {
 		present[r.O.Name] = true
 		solverSecs += r.Seconds
-		if _, isKnown := knownByObl[r.O.Name]; isKnown {
+		if kn, isKnown := knownName(knownByObl, r.O.Name); isKnown {
 			if r.Status == vc.Proved {
 				// a listed finding that now proves: the defect is gone; count normally
 			} else {
-				knownHit[r.O.Name] = true
+				knownHit[kn] = true
 				continue
 			}
 		}
@@ -433,4 +433,18 @@ func firstLine(s string) string {
 		s = s[:300]
 	}
 	return s
+}
+
+// knownName: an obligation matches a listed finding when the names are equal or
+// the obligation is one conjunct / path variant of it (name + "/k" or "~k").
+func knownName(known map[string]finding, name string) (string, bool) {
+	if _, ok := known[name]; ok {
+		return name, true
+	}
+	for k := range known {
+		if strings.HasPrefix(name, k) && len(name) > len(k) && (name[len(k)] == '/' || name[len(k)] == '~') {
+			return k, true
+		}
+	}
+	return "", false
 }
